@@ -37,10 +37,13 @@ VARIABLES pd, pin, pconn, praw, opened, popen, cf,
           nconn,   \* remote connections waiting in the listener's accept queue
           mon,     \* interface monitor
           warn,    \* a "without a cancel handle" arm of poll_next was reached
+          dconn,   \* futures of pending_connections whose work is finished but that were not polled since: [f, res, p]
+          draw,    \* the same for pending_raw_connections: [c, res, a, errs, p]
+          awake,   \* the task polling the stream has been woken (or has just issued a command) and will call poll_next
           hist
 
 bvars == <<pd, pin, pconn, praw, opened, popen, cf, req, auth, next, nconn>>
-vars == <<pd, pin, pconn, praw, opened, popen, cf, req, auth, next, nconn, mon, warn, hist>>
+vars == <<pd, pin, pconn, praw, opened, popen, cf, req, auth, next, nconn, mon, warn, dconn, draw, awake, hist>>
 
 \* address a names peer WantOf(a) ("" = no /p2p component); its socket part is SockOf(a)
 WantOf(a) == IF a = "a3" THEN "" ELSE "P1"
@@ -50,12 +53,14 @@ Dialable(a) == Kind = "tcp" \/ WantOf(a) # ""
 Addrs2 == {"a1", "a2"}
 Addrs3 == {"a1", "a2", "a3"}
 Addrs13 == {"a1", "a3"}
+Addrs1 == {"a1"}
 PeersDef == {"P1", "P2"}
 
 Init ==
   /\ pd = {} /\ pin = {} /\ pconn = {} /\ praw = {} /\ opened = {} /\ popen = {} /\ cf = <<>>
   /\ req = <<>> /\ auth = <<>> /\ next = 0 /\ nconn = 0
   /\ mon = MonInit /\ warn = FALSE /\ hist = <<>>
+  /\ dconn = {} /\ draw = {} /\ awake = TRUE
 
 Ids == 0..(next - 1)
 Seq1(S) == {<<a>> : a \in S}
@@ -65,7 +70,9 @@ Map(f(_), s) == [i \in 1..Len(s) |-> f(s[i])]
 Without(f, c) == [x \in DOMAIN f \ {c} |-> f[x]]
 
 Feed(m, h) == /\ mon' = m /\ hist' = Append(hist, h)
-Call(k, h) == Feed(MonCall(mon, k), h)
+\* a command: issued by the polling task itself (the manager), which then goes back to polling
+Call(k, h) == Feed(MonCall(mon, k), h) /\ awake' = TRUE /\ UNCHANGED <<dconn, draw>>
+Polled == UNCHANGED awake
 Event(e, h) == Feed(MonEvent(mon, e), h)
 
 -----------------------------------------------------------------------------
@@ -152,97 +159,113 @@ CRejectPending(c) ==
 RemoteConnect ==
   /\ nconn + next < MaxCid
   /\ nconn' = nconn + 1
-  /\ UNCHANGED <<pd, pin, pconn, praw, opened, popen, cf, req, auth, next, warn>>
+  /\ awake' = TRUE                         \* the listener socket becomes readable: its waker fires
+  /\ UNCHANGED <<pd, pin, pconn, praw, opened, popen, cf, req, auth, next, warn, dconn, draw>>
   /\ Feed(MonConnect(mon), [a |-> "connect"])
 
+\* The work of a future finishes (socket connected / refused / timer fired / handshake done or failed). Nothing is
+\* observable yet: the result is only seen when poll_next polls the future. Several of these may happen before the
+\* next poll_next (the application is busy, "hold"); each fires the waker of the polling task.
+DoneConn(f) ==
+  /\ f \in pconn /\ ~\E d \in dconn : d.f = f
+  /\ \E res \in {"ok", "err"} : \E p \in Peers :
+       /\ (f.k = "neg" => res = "ok" /\ p = auth[f.c].p)     \* `async { Ok(negotiated) }`
+       /\ (f.k = "dial" /\ res = "ok" /\ WantOf(req[f.c].addrs[1]) # "" => p = WantOf(req[f.c].addrs[1]))
+       /\ (res = "err" => p = "P1")
+       /\ dconn' = dconn \cup {[f |-> f, res |-> res, p |-> p]}
+       /\ hist' = Append(hist, [a |-> "done", c |-> f.c, k |-> f.k, res |-> res])
+  /\ awake' = TRUE
+  /\ UNCHANGED <<pd, pin, pconn, praw, opened, popen, cf, req, auth, next, nconn, mon, warn, draw>>
+
+DoneRaw(c) ==
+  /\ c \in praw /\ ~\E d \in draw : d.c = c
+  /\ \/ \E i \in 1..Len(req[c].addrs) : \E errset \in SUBSET (ToSetS(req[c].addrs) \ {req[c].addrs[i]}) : \E p \in Peers :
+          LET a == req[c].addrs[i] IN
+          /\ Dialable(a)
+          /\ (WantOf(a) # "" => p = WantOf(a))        \* negotiate_connection: PeerIdMismatch otherwise
+          /\ draw' = draw \cup {[c |-> c, res |-> "connected", a |-> a, errs |-> SetToSeq(errset), p |-> p]}
+          /\ hist' = Append(hist, [a |-> "done", c |-> c, k |-> "raw", res |-> "connected"])
+     \/ \E errset \in SUBSET ToSetS(req[c].addrs) :
+          /\ draw' = draw \cup {[c |-> c, res |-> "failed", a |-> "", errs |-> SetToSeq(errset), p |-> "P1"]}
+          /\ hist' = Append(hist, [a |-> "done", c |-> c, k |-> "raw", res |-> "failed"])
+  /\ awake' = TRUE
+  /\ UNCHANGED <<pd, pin, pconn, praw, opened, popen, cf, req, auth, next, nconn, mon, warn, dconn>>
+
 -----------------------------------------------------------------------------
-(* impl Stream for TcpTransport: poll_next                                   *)
+(* impl Stream for TcpTransport: poll_next, called only while the polling task is awake; every arm that   *)
+(* returns an event leaves the task awake (the manager polls again), a silent arm continues the loop.      *)
 
 \* listener arm: a socket is accepted, gets an id from the shared allocator and is parked
 PListener ==
-  /\ nconn > 0 /\ next < MaxCid
+  /\ awake /\ nconn > 0 /\ next < MaxCid
   /\ LET c == next IN
      /\ next' = next + 1 /\ nconn' = nconn - 1
      /\ pin' = pin \cup {c}
      /\ req' = (c :> [addrs |-> <<>>, kind |-> "in"]) @@ req
-     /\ UNCHANGED <<pd, pconn, praw, opened, popen, cf, auth, warn>>
+     /\ UNCHANGED <<pd, pconn, praw, opened, popen, cf, auth, warn, dconn, draw>> /\ Polled
      /\ Event([k |-> "pending_inbound", cid |-> c], [a |-> "p_listener", c |-> c])
 
-\* pending_raw_connections arm, future of open(c) resolves (Abortable: Aborted wins when the handle was aborted before the poll)
+\* pending_raw_connections arm (Abortable: Aborted wins whenever the handle was aborted before the poll)
 PRawCanceled(c) ==
-  /\ c \in praw /\ c \in DOMAIN cf /\ cf[c]
+  /\ awake /\ c \in praw /\ c \in DOMAIN cf /\ cf[c]
   /\ praw' = praw \ {c}
+  /\ draw' = {d \in draw : d.c # c}
   /\ cf' = IF Mutant = "cancel-handle-kept" THEN cf ELSE Without(cf, c)
-  /\ UNCHANGED <<pd, pin, pconn, opened, popen, req, auth, next, nconn, warn>>
+  /\ UNCHANGED <<pd, pin, pconn, opened, popen, req, auth, next, nconn, warn, dconn>> /\ Polled
   /\ IF Mutant = "cancelled-open-surfaces"
        THEN Event([k |-> "open_failure", cid |-> c, errs |-> <<>>], [a |-> "p_raw", c |-> c, res |-> "canceled"])
        ELSE Feed(mon, [a |-> "p_raw", c |-> c, res |-> "canceled"])
 
-PRawConnected(c) ==
-  /\ c \in praw /\ (c \in DOMAIN cf => ~cf[c])
-  /\ praw' = praw \ {c}
-  /\ \E i \in 1..Len(req[c].addrs) : \E errset \in SUBSET (ToSetS(req[c].addrs) \ {req[c].addrs[i]}) :
-     \E p \in Peers :
-       LET a == req[c].addrs[i] errs == SetToSeq(errset) IN
-       /\ Dialable(a)
-       /\ (WantOf(a) # "" => p = WantOf(a))        \* negotiate_connection: PeerIdMismatch otherwise
-       /\ IF c \in DOMAIN cf
-            THEN /\ cf' = Without(cf, c)
-                 /\ opened' = opened \cup {c}
-                 /\ auth' = (c :> [p |-> p, a |-> a]) @@ auth
-                 /\ warn' = warn
-                 /\ Event([k |-> "opened", cid |-> c, addr |-> Reported(a), errs |-> errs],
-                          [a |-> "p_raw", c |-> c, res |-> "connected", addr |-> a, errs |-> errs])
-            ELSE \* "raw connection without a cancel handle": dropped with a warning
-                 /\ warn' = TRUE /\ UNCHANGED <<cf, opened, auth>>
-                 /\ Feed(mon, [a |-> "p_raw", c |-> c, res |-> "lost"])
-  /\ UNCHANGED <<pd, pin, pconn, popen, req, next, nconn>>
+PRawTake(d) ==
+  /\ awake /\ d \in draw /\ (d.c \in DOMAIN cf => ~cf[d.c])
+  /\ LET c == d.c IN
+     /\ praw' = praw \ {c}
+     /\ draw' = draw \ {d}
+     /\ UNCHANGED <<pd, pin, pconn, popen, req, next, nconn, dconn>> /\ Polled
+     /\ IF c \notin DOMAIN cf
+          THEN \* "raw connection without a cancel handle": dropped with a warning
+               /\ warn' = TRUE /\ UNCHANGED <<cf, opened, auth>>
+               /\ Feed(mon, [a |-> "p_raw", c |-> c, res |-> "lost"])
+          ELSE /\ cf' = Without(cf, c) /\ warn' = warn
+               /\ IF d.res = "connected"
+                    THEN /\ opened' = opened \cup {c}
+                         /\ auth' = (c :> [p |-> d.p, a |-> d.a]) @@ auth
+                         /\ Event([k |-> "opened", cid |-> c, addr |-> Reported(d.a), errs |-> d.errs],
+                                  [a |-> "p_raw", c |-> c, res |-> "connected", addr |-> d.a, errs |-> d.errs])
+                    ELSE /\ UNCHANGED <<opened, auth>>
+                         /\ Event([k |-> "open_failure", cid |-> c, errs |-> d.errs],
+                                  [a |-> "p_raw", c |-> c, res |-> "failed", errs |-> d.errs])
 
-PRawFailed(c) ==
-  /\ c \in praw /\ (c \in DOMAIN cf => ~cf[c])
-  /\ praw' = praw \ {c}
-  /\ \E errset \in SUBSET ToSetS(req[c].addrs) :
-       LET errs == SetToSeq(errset) IN
-       IF c \in DOMAIN cf
-         THEN /\ cf' = Without(cf, c) /\ warn' = warn
-              /\ Event([k |-> "open_failure", cid |-> c, errs |-> errs],
-                       [a |-> "p_raw", c |-> c, res |-> "failed", errs |-> errs])
-         ELSE /\ warn' = TRUE /\ UNCHANGED cf
-              /\ Feed(mon, [a |-> "p_raw", c |-> c, res |-> "lost"])
-  /\ UNCHANGED <<pd, pin, pconn, opened, popen, req, auth, next, nconn>>
+\* pending_connections arm
+PConnTake(d) ==
+  /\ awake /\ d \in dconn
+  /\ pconn' = pconn \ {d.f}
+  /\ dconn' = dconn \ {d}
+  /\ LET c == d.f.c k == d.f.k IN
+     /\ UNCHANGED <<pin, praw, opened, cf, req, auth, next, nconn, warn, draw>>
+     /\ IF d.res = "ok"
+          THEN /\ pd' = pd \ {c}
+               /\ popen' = popen \cup {c}
+               /\ Polled
+               /\ Event([k |-> "est", cid |-> c, dir |-> IF k = "in" THEN "in" ELSE "out", peer |-> d.p,
+                         addr |-> IF k = "dial" THEN Reported(req[c].addrs[1]) ELSE IF k = "neg" THEN Reported(auth[c].a) ELSE "remote"],
+                        [a |-> "p_conn", c |-> c, res |-> "ok", peer |-> d.p])
+          ELSE /\ pd' = IF Mutant = "dial-entry-kept" THEN pd ELSE pd \ {c}
+               /\ UNCHANGED popen
+               /\ IF c \in pd /\ Mutant # "dial-failure-swallowed"
+                    THEN /\ Polled
+                         /\ Event([k |-> "dial_failure", cid |-> c, addr |-> req[c].addrs[1]], [a |-> "p_conn", c |-> c, res |-> "err"])
+                    ELSE \* "Pending inbound connection failed": logged only, the loop goes on. The seeded defect
+                         \* leaves the loop here: poll_next returns Pending although other futures are ready.
+                         /\ awake' = (Mutant # "inbound-failure-ends-poll")
+                         /\ Feed(mon, [a |-> "p_conn", c |-> c, res |-> "err"])
 
-\* pending_connections arm, Ok(connection)
-PConnOk(f) ==
-  /\ f \in pconn
-  /\ pconn' = pconn \ {f}
-  /\ LET c == f.c IN
-     /\ pd' = pd \ {c}
-     /\ popen' = popen \cup {c}
-     /\ UNCHANGED <<pin, praw, opened, cf, req, auth, next, nconn, warn>>
-     /\ CASE f.k = "dial" ->
-               \E p \in Peers :
-                 /\ (WantOf(req[c].addrs[1]) # "" => p = WantOf(req[c].addrs[1]))
-                 /\ Event([k |-> "est", cid |-> c, dir |-> "out", peer |-> p, addr |-> Reported(req[c].addrs[1])],
-                          [a |-> "p_conn", c |-> c, res |-> "ok", peer |-> p])
-          [] f.k = "neg" ->
-               \* the future is `async { Ok(negotiated) }`: the connection authenticated while opening
-               Event([k |-> "est", cid |-> c, dir |-> "out", peer |-> auth[c].p, addr |-> Reported(auth[c].a)],
-                     [a |-> "p_conn", c |-> c, res |-> "ok", peer |-> auth[c].p])
-          [] f.k = "in" ->
-               \E p \in Peers :
-                 Event([k |-> "est", cid |-> c, dir |-> "in", peer |-> p, addr |-> "remote"],
-                       [a |-> "p_conn", c |-> c, res |-> "ok", peer |-> p])
-
-\* pending_connections arm, Err((id, error)): only dial and inbound futures can fail
-PConnErr(f) ==
-  /\ f \in pconn /\ f.k \in {"dial", "in"}
-  /\ pconn' = pconn \ {f}
-  /\ LET c == f.c IN
-     /\ pd' = IF Mutant = "dial-entry-kept" THEN pd ELSE pd \ {c}
-     /\ UNCHANGED <<pin, praw, opened, popen, cf, req, auth, next, nconn, warn>>
-     /\ IF c \in pd /\ Mutant # "dial-failure-swallowed"
-          THEN Event([k |-> "dial_failure", cid |-> c, addr |-> req[c].addrs[1]], [a |-> "p_conn", c |-> c, res |-> "err"])
-          ELSE Feed(mon, [a |-> "p_conn", c |-> c, res |-> "err"])   \* "Pending inbound connection failed": logged only
+\* nothing is ready: poll_next returns Pending, the task sleeps until a waker fires
+NothingReady == dconn = {} /\ nconn = 0 /\ draw = {} /\ \A c \in praw : ~(c \in DOMAIN cf /\ cf[c])
+PollIdle ==
+  /\ awake /\ NothingReady
+  /\ awake' = FALSE
+  /\ UNCHANGED <<pd, pin, pconn, praw, opened, popen, cf, req, auth, next, nconn, mon, warn, dconn, draw, hist>>
 
 Next ==
   \/ \E a \in Addrs : CDial(a) \/ CDialNoPeer(a)
@@ -250,9 +273,11 @@ Next ==
   \/ \E as \in OpenArgs : COpen(as)
   \/ \E c \in Ids : \/ CCancel(c) \/ CNegotiate(c) \/ CDecide(c, "accept") \/ CDecide(c, "reject")
                     \/ CAcceptPending(c) \/ CRejectPending(c)
-                    \/ PRawCanceled(c) \/ PRawConnected(c) \/ PRawFailed(c)
-  \/ RemoteConnect \/ PListener
-  \/ \E f \in pconn : PConnOk(f) \/ PConnErr(f)
+                    \/ PRawCanceled(c) \/ DoneRaw(c)
+  \/ RemoteConnect \/ PListener \/ PollIdle
+  \/ \E f \in pconn : DoneConn(f)
+  \/ \E d \in dconn : PConnTake(d)
+  \/ \E d \in draw : PRawTake(d)
 
 Spec == Init /\ [][Next]_vars
 
@@ -273,12 +298,15 @@ BookkeepingExact == /\ BkExact(mon, Bk)
                     /\ IdsIn(mon, {"dialing", "negotiating"}) \subseteq {f.c : f \in pconn}
                     /\ {f.c : f \in pconn} \subseteq IdsIn(mon, {"dialing", "negotiating", "in_neg"})
 \* nothing outstanding in the network  =>  every operation concluded and nothing retained (G7 + L)
-Quiescent == pconn = {} /\ praw = {} /\ nconn = 0
+\* no lost wake-up: the polling task only sleeps when poll_next has nothing left to report
+NoLostWakeup == ~awake => NothingReady
+\* the network has finished everything it was asked to do and the polling task sleeps
+Quiescent == ~awake /\ nconn = 0 /\ (\A f \in pconn : \E d \in dconn : d.f = f) /\ (\A c \in praw : \E d \in draw : d.c = c)
 LeakFree == Quiescent => MonQuiesce(mon, Bk).bad = ""
 \* a cancelled open never surfaces (also a monitor rule; stated on the model state as well)
 CancelledNeverOpened == \A c \in DOMAIN cf : cf[c] => c \notin opened
 
-View == <<pd, pin, pconn, praw, opened, popen, cf, req, auth, next, nconn, mon, warn>>
-GenView == <<pd, pin, pconn, praw, opened, popen, cf, req, auth, next, nconn>>
+View == <<pd, pin, pconn, praw, opened, popen, cf, req, auth, next, nconn, mon, warn, dconn, draw, awake>>
+GenView == <<pd, pin, pconn, praw, opened, popen, cf, req, auth, next, nconn, dconn, draw, awake>>
 Emit == PrintT(<<"B", ToJson([steps |-> hist'])>>)
 =============================================================================
